@@ -247,6 +247,10 @@ func suiteC05(c *Ctx) []Suite {
 				badLit{"U1", "257", "above range"}, badLit{"U1", "0x101", "above range"}, badLit{"U2", "65537", "above range"}, badLit{"U4", "4294967297", "above range"}, badLit{"U8", "18446744073709551617", "above range"},
 				badLit{"I1", "257", "above range"}, badLit{"I1", "-257", "below range"}, badLit{"I2", "65537", "above range"}, badLit{"I4", "4294967297", "above range"}, badLit{"I8", "18446744073709551617", "above range"},
 			)
+			// a variable name among the values of an ASCII item (before, between, after them): the
+			// values are never dropped in favour of the variable
+			bads = append(bads, badLit{"A", "x", "variable among ASCII values"}, badLit{"A", "MDLN", "variable among ASCII values"},
+				badLit{"A", "x y", "two variables in an ASCII item"}, badLit{"A", "x 300", "variable and bad code"})
 			// a character that is no part of any literal spliced into a literal: never dropped
 			for _, x := range []string{"\ufeff", "\u200b", "\u00a0", "\u0085", "\x00", "\u2028", "\u00ad", "\u200d", "\x7f", "\x1b"} {
 				if x[0] >= 0x80 { // 7-bit control characters are legitimate inside a quoted string
@@ -395,6 +399,13 @@ func suiteC06(c *Ctx) []Suite {
 				"S1F1 <B "+strings.Repeat("1 ", 5000)+">.",
 				"S1F1 <L "+strings.Repeat("x ", 300)+strings.Repeat("<A x> ", 40)+">.",
 			)
+			// nesting with variables at the bottom (their names are collected again at every
+			// level): the work must stay polynomial in the depth
+			for _, d := range []int{22, 26, 32, 48, 120, 600} {
+				for _, leaf := range []string{"<U1 x>", "<A name>", "x", "<L y <B z>>", "<BOOLEAN a b c> ..."} {
+					texts = append(texts, "S1F1 W "+strings.Repeat("<L ", d)+leaf+strings.Repeat(">", d)+".")
+				}
+			}
 			results := runIsolated(texts)
 			var out []Case
 			for i, t := range texts {
@@ -490,8 +501,12 @@ func suiteC08(c *Ctx) []Suite {
 					// invalid messages whose token structure is intact (every layout applies):
 					// one value replaced by a literal no item type accepts, or a size made wrong
 					var cand []int
+					inItem := false // values stand inside the item; a message name may look like one
 					for k, t := range toks {
-						if k > 0 && len(t.Text) > 0 && (t.Text[0] >= '0' && t.Text[0] <= '9' || t.Text[0] == '-' || t.Text == "T" || t.Text == "F") {
+						if t.Text == "<" {
+							inItem = true
+						}
+						if inItem && len(t.Text) > 0 && (t.Text[0] >= '0' && t.Text[0] <= '9' || t.Text[0] == '-' || t.Text == "T" || t.Text == "F") {
 							cand = append(cand, k)
 						}
 					}
@@ -784,9 +799,16 @@ func suiteC15(c *Ctx) []Suite {
 			// violated) declarations of their own: every size error is reported at the
 			// declaration of the item it belongs to
 			var out []Case
+			nvar := 0
 			leaf := func() (string, bool) {
 				ok := c.R.Intn(4) > 0
-				switch c.R.Intn(4) {
+				switch c.R.Intn(6) {
+				case 4: // an ASCII variable (its declaration is kept, never violated at parse time)
+					nvar++
+					return []string{fmt.Sprintf(`<A v%d>`, nvar), fmt.Sprintf(`<A[2..4] v%d>`, nvar), fmt.Sprintf(`<A[3] v%d>`, nvar)}[c.R.Intn(3)], true
+				case 5: // a variable of another type
+					nvar++
+					return []string{fmt.Sprintf(`<U1 v%d>`, nvar), fmt.Sprintf(`<BOOLEAN[1] v%d>`, nvar), fmt.Sprintf(`<I4[2] 5 v%d>`, nvar)}[c.R.Intn(3)], true
 				case 0:
 					return fmt.Sprintf(`<A[%d] "ab">`, map[bool]int{true: 2, false: 3}[ok]), ok
 				case 1:
@@ -800,7 +822,14 @@ func suiteC15(c *Ctx) []Suite {
 				var lines []string
 				type want struct{ line, col int }
 				var wants []want
-				lines = append(lines, "S1F1 W H->E")
+				// one time in three the header stands on the line of the first list, with a name or
+				// separators of several bytes per character: columns count characters
+				hdr := ""
+				if c.R.Intn(3) == 0 {
+					hdr = []string{"S1F1 W H->E Größe ", "S1F1 W H->E 名前テスト ", "S1F1\u00a0W\u00a0H->E\u00a0né\u3000", "S1F1 W H->E plain "}[c.R.Intn(4)]
+				} else {
+					lines = append(lines, "S1F1 W H->E")
+				}
 				var build func(depth, indent int)
 				build = func(depth, indent int) {
 					n := 1 + c.R.Intn(3)
@@ -810,7 +839,11 @@ func suiteC15(c *Ctx) []Suite {
 						declared = n + 1 + c.R.Intn(2)
 					}
 					pad := strings.Repeat("  ", indent)
-					lines = append(lines, fmt.Sprintf("%s<L[%d]", pad, declared))
+					first := ""
+					if len(lines) == 0 {
+						first = hdr
+					}
+					lines = append(lines, fmt.Sprintf("%s%s<L[%d]", first, pad, declared))
 					myLine := len(lines)
 					var kids []want
 					for k := 0; k < n; k++ {
@@ -831,7 +864,7 @@ func suiteC15(c *Ctx) []Suite {
 					// errors are reported in the order the items are completed: children first
 					wants = append(wants, kids...)
 					if bad {
-						wants = append(wants, want{myLine, len(pad) + 3})
+						wants = append(wants, want{myLine, utf8.RuneCountInString(first) + len(pad) + 3})
 					}
 				}
 				build(0, 0)
@@ -970,6 +1003,15 @@ func suiteC19(c *Ctx) []Suite {
 						// not accepted on its own and never reaches the concatenation
 						if k := strings.LastIndex(t, m.Name); k >= 0 {
 							t = t[:k+len(m.Name)] + "."
+						}
+					}
+					// a later text may start with whatever the parser accepts at the start of a text
+					// (byte order mark, exotic blanks, a comment): if the text is accepted with
+					// it, the concatenation has to cope with it too
+					if j > 0 && c.R.Intn(5) == 0 {
+						cand := []string{"\ufeff", "\ufeff\n", "\u00a0", "\v", "\f", "\u2028", "// first line\n", "\r\n\t", "\x00"}[c.R.Intn(9)] + t
+						if rc := parseSML(cand); !rc.panicked && len(rc.errs) == 0 {
+							t = cand
 						}
 					}
 					r := parseSML(t)
